@@ -78,6 +78,11 @@ def run(fx, tier):
                 v.check(not stores, 'R-PAIR', inst + ':path%d:silent' % pi,
                         'session_present=%s subscriptions_present=%s: nothing is reported' % (sp, sub),
                         key='C13:R-PAIR:update_session_state:spurious-report', where=f.file)
+                # the "a subscription has succeeded since the last report" marker is consumed by a report and by nothing
+                # else: a path that reports nothing (resumed session, or nothing subscribed) leaves it alone
+                v.check(not any(n_ == 'subscriptions_present' for n_, _ in sets), 'R-PAIR', inst + ':path%d:marker-kept' % pi,
+                        'session_present=%s subscriptions_present=%s: the subscription marker is not touched on a path that reports nothing (%s)' % (sp, sub, sets),
+                        key='C13:R-PAIR:update_session_state:marker-cleared-without-report', where=f.file)
                 if sp is False:
                     v.check(('session_present', 1) in sets, 'R-PAIR', inst + ':path%d:resume-flag' % pi,
                             'session_present is set again after a non-resumed session was noticed',
